@@ -498,7 +498,10 @@ func buildInit(p *initPlan) (*mp4.InitSegment, []*expTrack, error) {
 			return trak.SetEC3Descriptor(&cp)
 		case "wvtt":
 			e.entryType = "wvtt"
-			e.vtt = []string{"", "WEBVTT", "WEBVTT\n\nNOTE x"}[r.Intn(3)]
+			// the configuration is the header block of the WebVTT file as the author wrote it: with or without line
+			// terminators at its end, CRLF, style/region blocks, leading/trailing blanks
+			e.vtt = []string{"", "WEBVTT", "WEBVTT\n\nNOTE x", "WEBVTT\n", "WEBVTT\r\n", "WEBVTT\n\n", "WEBVTT - title \n\nSTYLE\n::cue { color: lime }\n\n",
+				" WEBVTT ", "WEBVTT\n\nREGION\nid:r1\nlines:3\n", "WEBVTT\t"}[r.Intn(10)]
 			return trak.SetWvttDescriptor(e.vtt)
 		case "stpp":
 			e.entryType = "stpp"
